@@ -23,8 +23,13 @@ use std::io::Error;
 use std::mem::MaybeUninit;
 use std::os::unix::io::AsRawFd;
 use std::ptr;
+#[cfg(not(sighook_verif))]
 use std::sync::atomic::{AtomicBool, Ordering};
+#[cfg(not(sighook_verif))]
 use std::sync::{Arc, Mutex};
+#[cfg(sighook_verif)]
+#[allow(unused_imports)]
+use signal_hook_registry::verif_shim::{self, atomic::*, sync::*};
 
 use libc::{self, c_int};
 
@@ -140,6 +145,8 @@ impl<E: Exfiltrator> AddSignal for PendingSignals<E> {
             let slot = &self.slots[signal as usize];
             let ex = &self.exfiltrator;
             ex.store(slot, signal, act);
+            #[cfg(sighook_verif)]
+            verif_shim::event(verif_shim::Event::Stored, signal as usize, act as *const _ as usize);
             write.wake_readers();
         };
         let id = unsafe { signal_hook_registry::register_sigaction(signal, action) }?;
@@ -313,6 +320,8 @@ where
             let nowait_flag = libc::MSG_NONBLOCK;
             #[cfg(not(target_os = "aix"))]
             let nowait_flag = libc::MSG_DONTWAIT;
+            #[cfg(sighook_verif)]
+            verif_shim::point(verif_shim::Kind::PipeDrain, self.read.as_raw_fd() as usize);
             while libc::recv(
                 self.read.as_raw_fd(),
                 buff.as_mut_ptr() as *mut libc::c_void,
